@@ -133,6 +133,8 @@ HCOBS = VerusUnit(
         VImpl("impl<'this> Encoder<'this>", [
             w_fn(EI, "new_from_iovec", "ensures inv, forall z. sem(z) == iovec.bytes ++ enc_prod(z), other placeholders untouched, frame"),
             w_fn(EI, "new", "ensures inv, forall z. sem(z) == enc_prod(z), nothing else pending"),
+            w_fn(EI, "consumer", "obtaining the consumer changes neither the encoder state nor the logical stream (any drain "
+                                 "schedule leaves the final output unchanged)", props=("C01", "C02", "C09")),
             w_fn(EI, "encode", WSEM),
             w_fn(EI, "encode_copy", WSEM),
             w_fn(EI, "encode_anchored", WSEM, subs=[UNSAFE_COMPONENTS]),
@@ -147,6 +149,8 @@ HCOBS = VerusUnit(
         VImpl("impl<'this> Decoder<'this>", [
             d_fn("new_from_iovec", "ensures view = Initial; iovec moved in unchanged"),
             d_fn("new", "ensures view = Initial, empty output"),
+            d_fn("consumer", "obtaining the consumer changes neither the decoder state nor the logical stream", props=("C01", "C09")),
+            d_fn("take_iovec", "returns the output unchanged", props=("C01",)),
             d_fn("decode", WDEC),
             d_fn("decode_copy", WDEC),
             d_fn("decode_anchored", WDEC, subs=[UNSAFE_COMPONENTS]),
